@@ -24,15 +24,17 @@ int BookBuildTest::run(int argc, char** argv) {
     int nBooks = atoi(argv[2]), nOps = atoi(argv[3]), maxNodes = atoi(argv[4]), dumpEvery = atoi(argv[5]);
     std::ofstream os(argv[6]);
     std::string tmp = argv[7];
+    // book cost parameters (bookDepthCost, ownPathErrorCost, otherPathErrorCost); tiny values make equal costs frequent
+    const int cD = argc > 10 ? atoi(argv[8]) : 100, cOwn = argc > 10 ? atoi(argv[9]) : 200, cOth = argc > 10 ? atoi(argv[10]) : 50;
     vh::init();
-    os << "{\"e\":\"Meta\",\"check\":\"C19\",\"seed\":" << seed << ",\"cfg\":[100,200,50],\"IGNORE\":" << IGNORE_SCORE << ",\"INVALID\":" << INVALID_SCORE << "}\n";
+    os << "{\"e\":\"Meta\",\"check\":\"C19\",\"seed\":" << seed << ",\"cfg\":[" << cD << "," << cOwn << "," << cOth << "],\"IGNORE\":" << IGNORE_SCORE << ",\"INVALID\":" << INVALID_SCORE << "}\n";
     Random rnd(seed, 0xC19);
     long ops = 0, dumps = 0, maxSeen = 0, transpositions = 0, reloads = 0, imports = 0;
     std::streambuf* coutBuf = std::cout.rdbuf();
     std::ostringstream sink;
     for (int b = 0; b < nBooks; b++) {
         ids.clear();
-        std::unique_ptr<BookBuild::Book> book(new BookBuild::Book("", 100, 200, 50));
+        std::unique_ptr<BookBuild::Book> book(new BookBuild::Book("", cD, cOwn, cOth));
         auto dump = [&](const char* op) {
             os << "{\"e\":\"Graph\",\"op\":\"" << op << "\",\"nodes\":[";
             // stable order by id
@@ -64,6 +66,29 @@ int BookBuildTest::run(int argc, char** argv) {
             maxSeen = std::max<long>(maxSeen, (long)byId.size());
         };
         dump("new");
+        // Half of the books use a tiny score alphabet: equal scores and equal costs (a value changing to exactly the old value of a
+        // neighbouring field, two children with the same cost, zero move errors) are what change-detection shortcuts get wrong.
+        const bool smallScores = rnd.nextInt(2) == 0;
+        // a search result for node (position pos, legal moves ml): dropout move legal / covered by a child / empty; score alphabet per book
+        auto storeSearch = [&](BookNode* node, Position& pos, MoveList& ml) {
+            Move best;
+            int kind = rnd.nextInt(10);
+            if (ml.size > 0 && kind < 8) best = ml[rnd.nextInt(ml.size)];
+            if (kind == 8 && !node->getChildren().empty()) {   // a move that already has a child node (obsoleted dropout move)
+                auto it = node->getChildren().begin();
+                std::advance(it, rnd.nextInt((int)node->getChildren().size()));
+                for (int i = 0; i < ml.size; i++) if (ml[i].getCompressedMove() == it->first) best = ml[i];
+            }
+            int sk = rnd.nextInt(smallScores ? 40 : 20), score;
+            if (sk >= 20) sk = rnd.nextInt(13);               // tiny-alphabet books: special scores are half as frequent
+            if (sk < 13) score = smallScores ? (rnd.nextInt(9) - 4) * (rnd.nextInt(3) == 0 ? 4 : 1) : rnd.nextInt(601) - 300;
+            else if (sk < 15) score = SearchConst::MATE0 - 2 * (1 + rnd.nextInt(6));
+            else if (sk < 17) score = -(SearchConst::MATE0 - 1 - 2 * rnd.nextInt(6));
+            else if (sk < 18) score = 0;
+            else if (sk < 19) { score = IGNORE_SCORE; best = Move(); }
+            else score = INVALID_SCORE;
+            node->setSearchResult(book->bookData, best, score, 1000 + rnd.nextInt(5000));
+        };
         for (int op = 0; op < nOps; op++) {
             std::vector<U64> keys;
             for (auto& e : book->bookNodes) keys.push_back(e.first);
@@ -96,26 +121,33 @@ int BookBuildTest::run(int argc, char** argv) {
                 std::vector<U64> toSearch;
                 book->addPosToBook(pos, m, toSearch);
                 name = "add";
-            } else if (act < 80) {
-                Move best;
-                int kind = rnd.nextInt(10);
-                if (ml.size > 0 && kind < 8) best = ml[rnd.nextInt(ml.size)];
-                if (kind == 8 && !node->getChildren().empty()) {   // a move that already has a child node (obsoleted dropout move)
-                    auto it = node->getChildren().begin();
-                    std::advance(it, rnd.nextInt((int)node->getChildren().size()));
-                    for (int i = 0; i < ml.size; i++) if (ml[i].getCompressedMove() == it->first) best = ml[i];
+                // as the book builder does: the positions handed back for searching get their results soon (90%: at once)
+                for (U64 k : toSearch) {
+                    if (rnd.nextInt(10) == 0) continue;
+                    BookNode* n2 = book->getBookNode(k);
+                    Position p2; std::vector<Move> path2;
+                    if (!n2 || !book->getPosition(k, p2, path2)) continue;
+                    MoveList ml2; vh::legalMoves(p2, ml2);
+                    storeSearch(n2, p2, ml2);
+                    name = "add+search";
                 }
-                int sk = rnd.nextInt(20), score;
-                if (sk < 13) score = rnd.nextInt(601) - 300;
-                else if (sk < 15) score = SearchConst::MATE0 - 2 * (1 + rnd.nextInt(6));
-                else if (sk < 17) score = -(SearchConst::MATE0 - 1 - 2 * rnd.nextInt(6));
-                else if (sk < 18) score = 0;
-                else if (sk < 19) { score = IGNORE_SCORE; best = Move(); }
-                else score = INVALID_SCORE;
-                node->setSearchResult(book->bookData, best, score, 1000 + rnd.nextInt(5000));
+            } else if (act < 80) {
+                storeSearch(node, pos, ml);
                 name = "search";
             } else if (act < 90) {
-                if (book->bookData.isPending(h)) { book->removePending(h); name = "unpend"; }
+                std::vector<U64> pendNow;
+                for (U64 k : keys) if (book->bookData.isPending(k)) pendNow.push_back(k);
+                if (!pendNow.empty() && rnd.nextInt(2) == 0) {      // searches finish: pending marks do not stay for long
+                    h = pendNow[rnd.nextInt((int)pendNow.size())];
+                    node = book->getBookNode(h);
+                }
+                if (book->bookData.isPending(h)) {
+                    book->removePending(h); name = "unpend";
+                    if (rnd.nextInt(2) == 0) {     // as Book::extendBook does: the finished search stores its result (often the same one)
+                        node->setSearchResult(book->bookData, node->getBestNonBookMove(), node->getSearchScore(), node->getSearchTime());
+                        name = "unpend+store";
+                    }
+                }
                 else { book->addPending(h); name = "pend"; }
             } else if (act < 95) {
                 // save / load cycle: the reloaded book must reproduce the same graph and scores (pending marks are not stored)
@@ -125,7 +157,7 @@ int BookBuildTest::run(int argc, char** argv) {
                 dump("before-save");
                 std::string f = tmp + "/book_" + std::to_string(seed) + ".bin";
                 book->writeToFile(f);
-                book.reset(new BookBuild::Book("", 100, 200, 50));
+                book.reset(new BookBuild::Book("", cD, cOwn, cOth));
                 std::cout.rdbuf(sink.rdbuf());
                 book->readFromFile(f);
                 std::cout.rdbuf(coutBuf);
@@ -154,7 +186,7 @@ int BookBuildTest::run(int argc, char** argv) {
                     }
                     pgn << "*\n";
                 }
-                book.reset(new BookBuild::Book("", 100, 200, 50));
+                book.reset(new BookBuild::Book("", cD, cOwn, cOth));
                 std::cout.rdbuf(sink.rdbuf());
                 book->importPGN(f, pg, 6);
                 std::cout.rdbuf(coutBuf);
